@@ -375,26 +375,27 @@ package tree
 //@ define INV() bool = INV1() && INV2() && INV3() && INV5() && OWN() && INVE()
 //@ define adjacent(a *Node, b *Node) bool = exists i int :: {a.neigh[i]} 0 <= i && i < len(a.neigh) && a.neigh[i] == b
 
+//@ define cnpre(parent *Node, child *Node) bool = allocated(parent) && allocated(child) && parent != child && INV() && !adjacent(parent, child) && !adjacent(child, parent)
+
 //@ func (*tree.Tree).ConnectNodes
-//@   requires t != nil && allocated(parent) && allocated(child) && parent != child
-//@   requires INV() && !adjacent(parent, child) && !adjacent(child, parent)
+//@   requires t != nil && parent != nil && child != nil
 //@   allocates Edge, []*Node, []*Edge, []string
 //@   assigns parent.neigh, parent.br, child.neigh, child.br, elems(parent.neigh), elems(parent.br), elems(child.neigh), elems(child.br)
 //@   ensures [fresh_branch_from_parent_to_child] fresh(result) && result.left == parent && result.right == child && result.length == -1.0 && result.support == -1.0 && result.pvalue == -1.0 && result.id == -1
-//@   ensures [appended_last_on_both_sides] deg(parent) == old(deg(parent)) + 1 && deg(child) == old(deg(child)) + 1 && parent.neigh[deg(parent) - 1] == child && parent.br[deg(parent) - 1] == result && child.neigh[deg(child) - 1] == parent && child.br[deg(child) - 1] == result
-//@   ensures [earlier_slots_kept] (forall k int :: {parent.neigh[k]} {parent.br[k]} 0 <= k && k < old(deg(parent)) ==> parent.neigh[k] == old(parent.neigh[k]) && parent.br[k] == old(parent.br[k])) && (forall k int :: {child.neigh[k]} {child.br[k]} 0 <= k && k < old(deg(child)) ==> child.neigh[k] == old(child.neigh[k]) && child.br[k] == old(child.br[k]))
-//@   ensures [hint_other_nodes_untouched] forall n *Node :: {n.neigh} {n.br} allocated(n) && n != parent && n != child ==> n.neigh == old(n.neigh) && n.br == old(n.br)
-//@   ensures [hint_every_old_slot_kept] forall n *Node, k int :: {n.neigh[k]} {n.br[k]} {old(n.neigh[k])} {old(n.br[k])} allocated(n) && 0 <= k && k < old(deg(n)) ==> n.neigh[k] == old(n.neigh[k]) && n.br[k] == old(n.br[k])
-//@   ensures [hint_degrees_do_not_shrink] forall n *Node :: {deg(n)} allocated(n) ==> deg(n) >= old(deg(n)) && (n != parent && n != child ==> deg(n) == old(deg(n)))
-//@   ensures [inv1] INV1()
-//@   ensures [inv2] INV2()
-//@   ensures [inv3] INV3()
-//@   ensures [inv4_case_parent_new_slot] exists j int :: 0 <= j && j < deg(child) && child.neigh[j] == parent && child.br[j] == parent.br[deg(parent) - 1]
-//@   ensures [inv4_case_child_new_slot] exists j int :: 0 <= j && j < deg(parent) && parent.neigh[j] == child && parent.br[j] == child.br[deg(child) - 1]
-//@   ensures [inv5] INV5()
-//@   ensures [own] OWN()
-//@   ensures [inve] INVE()
-//@   ensures [orientation_kept_when_the_child_had_no_parent] old(ORI()) && (forall k int :: {old(child.br[k])} 0 <= k && k < old(deg(child)) ==> old(child.br[k].right) != child) ==> ORI()
+//@   ensures [appended_last_on_both_sides] old(cnpre(parent, child)) ==> deg(parent) == old(deg(parent)) + 1 && deg(child) == old(deg(child)) + 1 && parent.neigh[deg(parent) - 1] == child && parent.br[deg(parent) - 1] == result && child.neigh[deg(child) - 1] == parent && child.br[deg(child) - 1] == result
+//@   ensures [earlier_slots_kept] old(cnpre(parent, child)) ==> ((forall k int :: {parent.neigh[k]} {parent.br[k]} 0 <= k && k < old(deg(parent)) ==> parent.neigh[k] == old(parent.neigh[k]) && parent.br[k] == old(parent.br[k])) && (forall k int :: {child.neigh[k]} {child.br[k]} 0 <= k && k < old(deg(child)) ==> child.neigh[k] == old(child.neigh[k]) && child.br[k] == old(child.br[k])))
+//@   ensures [hint_other_nodes_untouched] old(cnpre(parent, child)) ==> (forall n *Node :: {n.neigh} {n.br} allocated(n) && n != parent && n != child ==> n.neigh == old(n.neigh) && n.br == old(n.br))
+//@   ensures [hint_every_old_slot_kept] old(cnpre(parent, child)) ==> (forall n *Node, k int :: {n.neigh[k]} {n.br[k]} {old(n.neigh[k])} {old(n.br[k])} allocated(n) && 0 <= k && k < old(deg(n)) ==> n.neigh[k] == old(n.neigh[k]) && n.br[k] == old(n.br[k]))
+//@   ensures [hint_degrees_do_not_shrink] old(cnpre(parent, child)) ==> (forall n *Node :: {deg(n)} allocated(n) ==> deg(n) >= old(deg(n)) && (n != parent && n != child ==> deg(n) == old(deg(n))))
+//@   ensures [inv1] old(cnpre(parent, child)) ==> (INV1())
+//@   ensures [inv2] old(cnpre(parent, child)) ==> (INV2())
+//@   ensures [inv3] old(cnpre(parent, child)) ==> (INV3())
+//@   ensures [inv4_case_parent_new_slot] old(cnpre(parent, child)) ==> (exists j int :: 0 <= j && j < deg(child) && child.neigh[j] == parent && child.br[j] == parent.br[deg(parent) - 1])
+//@   ensures [inv4_case_child_new_slot] old(cnpre(parent, child)) ==> (exists j int :: 0 <= j && j < deg(parent) && parent.neigh[j] == child && parent.br[j] == child.br[deg(child) - 1])
+//@   ensures [inv5] old(cnpre(parent, child)) ==> (INV5())
+//@   ensures [own] old(cnpre(parent, child)) ==> (OWN())
+//@   ensures [inve] old(cnpre(parent, child)) ==> (INVE())
+//@   ensures [orientation_kept_when_the_child_had_no_parent] old(cnpre(parent, child)) && old(ORI()) && (forall k int :: {old(child.br[k])} 0 <= k && k < old(deg(child)) ==> old(child.br[k].right) != child) ==> ORI()
 
 //@ func (*tree.Node).NodeIndex
 //@   requires n != nil
@@ -559,17 +560,16 @@ package tree
 //@     step [two_branches_added_per_grafted_tip_one_or_two_in_the_first_round] len(next(edges)) == len(edges) + (len(edges) == 0 ? (rooted ? 2 : 1) : 2)
 
 //@ func (*tree.Tree).NewNode
-//@   requires INV() && ORI()
 //@   allocates Node, []string, []*Node, []*Edge
 //@   assigns nothing
 //@   ensures [fresh_isolated_node] fresh(result) && deg(result) == 0 && len(result.br) == 0 && result.name == "" && len(result.comment) == 0
 //@   ensures [own_fresh_adjacency_storage] fresh_arr(result.neigh) && fresh_arr(result.br) && fresh_arr(result.comment) && arr(result.neigh) != arr(result.br)
-//@   ensures [nobody_points_to_it] forall m *Node, k int :: {m.neigh[k]} allocated(m) && 0 <= k && k < deg(m) ==> m.neigh[k] != result
-//@   ensures [no_branch_ends_at_it] forall e *Edge :: {e.left} {e.right} allocated(e) ==> e.left != result && e.right != result
-//@   ensures [inv1] INV1()
-//@   ensures [inv2] INV2()
-//@   ensures [inv3] INV3()
-//@   ensures [inv5] INV5()
-//@   ensures [own] OWN()
-//@   ensures [inve] INVE()
-//@   ensures [orientation] ORI()
+//@   ensures [nobody_points_to_it] old(INV2()) ==> forall m *Node, k int :: {m.neigh[k]} allocated(m) && 0 <= k && k < deg(m) ==> m.neigh[k] != result
+//@   ensures [no_branch_ends_at_it] old(INVE()) ==> forall e *Edge :: {e.left} {e.right} allocated(e) ==> e.left != result && e.right != result
+//@   ensures [inv1] old(INV()) && old(ORI()) ==> INV1()
+//@   ensures [inv2] old(INV()) && old(ORI()) ==> INV2()
+//@   ensures [inv3] old(INV()) && old(ORI()) ==> INV3()
+//@   ensures [inv5] old(INV()) && old(ORI()) ==> INV5()
+//@   ensures [own] old(INV()) && old(ORI()) ==> OWN()
+//@   ensures [inve] old(INV()) && old(ORI()) ==> INVE()
+//@   ensures [orientation] old(INV()) && old(ORI()) ==> ORI()
